@@ -1,7 +1,21 @@
 /-
   C02 — Emission follows the configured schedule, independent of block cadence.
+
+  `Minter.mint` / `mintAux` is the model tied to the Go keeper by the correspondence check.
+  `Minter.total` is the integer part of the cumulative schedule (remainders carried across period
+  boundaries).  Main results, for every parameter set of the shape validation enforces
+  (`Valid`: consecutive ids, well-formed denom, every period well-formed from where it starts;
+  linear periods span at least one millisecond), every genesis-like state and EVERY strictly
+  increasing list of block times:
+    * path_independent  — the blocks mint in total exactly `total` at the last block time, so any
+                          two ways of cutting time into blocks that end at the same instant mint
+                          the same;
+    * block_nonneg      — no block mints a negative amount;
+    * no_halt           — Mint never fails or panics (used by C10);
+    * linear_exact      — a linear period's cumulative amount at its end is exactly its amount.
 -/
-import C4E.Minter
+import C4E.Lemmas.MinterRefine
+import C4E.Lemmas.MinterValidate
 namespace C4E.Props.C02
 open C4E C4E.Minter
 
@@ -9,5 +23,202 @@ open C4E C4E.Minter
 theorem carry_exact (x y r : Int) (hx : 0 ≤ x) (hy : 0 ≤ y) (hr : 0 ≤ r) :
     Dec.truncInt (x + r) + Dec.truncInt (y + Dec.frac (x + r)) = Dec.truncInt (x + y + r) :=
   Dec.carry x y r hx hy hr
+
+/-- the chain of periods as validation leaves it: each period well-formed from its start, only
+    the last one open-ended -/
+def ChainOk : Int → List M → Prop
+  | _, [] => False
+  | start, m :: rest => CfgOk m start ∧ match m.endT with
+    | none => rest = []
+    | some e => ChainOk e rest
+
+theorem wf_of_chainOk : ∀ (ms : List M) (start : Int), ChainOk start ms → WF start ms := by
+  intro ms
+  induction ms with
+  | nil => intro _ h; exact h
+  | cons m rest ih =>
+    intro start h
+    obtain ⟨h1, h2⟩ := h
+    refine ⟨good_of_cfgOk m start h1, ?_⟩
+    cases he : m.endT with
+    | none => rw [he] at h2; exact h2
+    | some e => rw [he] at h2; exact ih e h2
+
+/-- the shape of accepted parameters -/
+structure Valid (p : Params) : Prop where
+  consec : Consec p.minters
+  denom : validDenom p.denom = true
+  chain : ChainOk p.start p.minters
+
+theorem chainOk_of_chainV : ∀ (l : List M) (start : Int), l ≠ [] → ChainV start l → Sane start l → ChainOk start l := by
+  intro l
+  induction l with
+  | nil => intro _ h; exact absurd rfl h
+  | cons m rest ih =>
+    intro start hne hc hs
+    have := chainV_to_cfgOk (m :: rest) start hne hc hs
+    simp only [] at this
+    obtain ⟨h1, h2⟩ := this
+    refine ⟨h1, ?_⟩
+    cases he : m.endT with
+    | none => rw [he] at h2; exact h2
+    | some e => rw [he] at h2; exact ih e h2.1 h2.2.1 h2.2.2
+
+/-- **every parameter set accepted by `Params.Validate`** whose linear periods span at least one
+    millisecond has the shape the theorems below assume -/
+theorem valid_of_validate (raw : RawParams) (p : Params) (h : validate raw = some p)
+    (hs : Sane p.start p.minters) : Valid p := by
+  obtain ⟨_, hd, hne, hc, hv⟩ := validate_spec raw p h
+  exact ⟨hc, hd, chainOk_of_chainV p.minters p.start hne hv hs⟩
+
+/-- run a list of blocks; none if any block's Mint fails -/
+def runBlocks (p : Params) : St → List Int → Option (List Int × St)
+  | st, [] => some ([], st)
+  | st, t :: ts =>
+    match mint p st t with
+    | .ok r =>
+      match runBlocks p r.st ts with
+      | some (as, s) => some (r.amount :: as, s)
+      | none => none
+    | _ => none
+
+theorem run_spec (p : Params) (hv : Valid p) :
+    ∀ (ts : List Int) (st : St) (s : MSt) (tl acc : Int),
+      Rel p st s → WF s.start s.ms → 0 ≤ s.rem → s.rem < P → s.start ≤ tl →
+      (∀ m rest, s.ms = m :: rest → s.minted = Dec.truncInt (amountToMint m s.start tl + s.rem) ∧
+          (∀ e, m.endT = some e → tl < e ∨ tl = s.start)) →
+      st.last ≤ tl → p.start ≤ tl →
+      (∀ t', tl ≤ t' → total s.start s.ms s.rem t' - s.minted = total p.start p.minters 0 t' - acc) →
+      ts.Pairwise (· < ·) → (∀ t ∈ ts, tl < t) →
+      ∃ as st', runBlocks p st ts = some (as, st') ∧ (∀ a ∈ as, 0 ≤ a) ∧
+        (∀ T, ts.getLast? = some T → acc + sumInts as = total p.start p.minters 0 T) := by
+  intro ts
+  induction ts with
+  | nil =>
+    intro st s tl acc _ _ _ _ _ _ _ _ _ _ _
+    exact ⟨[], st, rfl, (by intro a ha; cases ha), (by intro T hT; cases hT)⟩
+  | cons t ts ih =>
+    intro st s tl acc hrel hwf hr0 hr1 hstl hpre hlast hps hpot hpw hgt
+    have htl : tl < t := hgt t (by simp)
+    obtain ⟨cur, rest, hms⟩ : ∃ cur rest, s.ms = cur :: rest := by
+      cases hs : s.ms with
+      | nil => rw [hs] at hwf; exact absurd hwf (by simp [WF])
+      | cons c r => exact ⟨c, r, rfl⟩
+    have hrel' : Rel p st ⟨s.start, cur :: rest, st.minted, st.remPrev⟩ := by
+      obtain ⟨⟨pre, h1, h2, h3⟩, h4, h5, h6⟩ := hrel
+      exact ⟨⟨pre, by rw [h1, hms], h2, h3⟩, by intro m r hm; exact h4 m r (by rw [hms]; exact hm), rfl, rfl⟩
+    have hfuel : rest.length < p.minters.length + 1 := by
+      obtain ⟨⟨pre, h1, _, _⟩, _, _, _⟩ := hrel
+      rw [h1, hms]; simp; omega
+    obtain ⟨res, hres, hamt, hrel2, hlastres⟩ := mintAux_refines p hv.consec hv.denom t rest cur (p.minters.length + 1) st s.start hrel'
+      (hms ▸ hwf) (by omega) hfuel
+    rw [hrel.minted, hrel.rem] at hamt hrel2
+    have hspec := mintGo_spec (cur :: rest) s.start s.minted s.rem tl t (hms ▸ hwf) hr0 hr1 hstl (by omega)
+      (by intro m r hm; exact hpre m r (by rw [hms]; exact hm))
+    simp only [] at hspec
+    obtain ⟨sp1, sp2, sp3, sp4wf, sp4r0, sp4r1, sp4st, sp4pre⟩ := hspec
+    generalize hR : mintGo s.start (cur :: rest) s.minted s.rem t = R at *
+    have hmint : mint p st t = .ok res := by
+      unfold mint
+      rw [if_neg (by omega), if_neg (by omega)]
+      exact hres
+    have hlast2 : res.st.last ≤ t := by
+      rcases hlastres with h | h <;> omega
+    obtain ⟨as, st', hrun, hnn, hsum⟩ := ih res.st R.2 t (acc + R.1) hrel2 sp4wf sp4r0 sp4r1 sp4st sp4pre hlast2 (by omega)
+      (by
+        intro t' ht'
+        have h1 := sp3 t' ht'
+        have h2 := hpot t' (by omega)
+        rw [← hms] at h1
+        omega)
+      (List.Pairwise.of_cons hpw)
+      (by intro x hx; exact (List.pairwise_cons.mp hpw).1 x hx)
+    refine ⟨res.amount :: as, st', ?_, ?_, ?_⟩
+    · simp only [runBlocks, hmint, hrun]
+    · intro a ha
+      rcases List.mem_cons.mp ha with rfl | ha
+      · rw [hamt]; exact sp1
+      · exact hnn a ha
+    · intro T hT
+      rw [sumInts_cons, hamt]
+      cases ts with
+      | nil =>
+        simp at hT; subst hT
+        have hrunNil : as = [] := by simp [runBlocks] at hrun; exact hrun.1
+        subst hrunNil
+        have h2 := hpot t (by omega)
+        rw [← hms] at sp2
+        simp; omega
+      | cons t2 ts2 =>
+        have := hsum T (by rw [List.getLast?_cons_cons] at hT; exact hT)
+        omega
+
+/-- genesis-like minter state: at the first period, nothing minted, no remainder -/
+structure GenesisLike (p : Params) (st : St) : Prop where
+  seq : ∀ m rest, p.minters = m :: rest → st.seq = m.seq
+  minted : st.minted = 0
+  rem : st.remPrev = 0
+  last : st.last ≤ p.start
+
+/-- **C02 path_independent / block_nonneg / no_halt** -/
+theorem path_independent (p : Params) (hv : Valid p) (st : St) (hg : GenesisLike p st)
+    (ts : List Int) (hinc : ts.Pairwise (· < ·)) (hafter : ∀ t ∈ ts, p.start < t) :
+    ∃ as st', runBlocks p st ts = some (as, st') ∧ (∀ a ∈ as, 0 ≤ a) ∧
+      (∀ T, ts.getLast? = some T → sumInts as = total p.start p.minters 0 T) := by
+  have hwf := wf_of_chainOk p.minters p.start hv.chain
+  have hrel : Rel p st ⟨p.start, p.minters, 0, 0⟩ :=
+    ⟨⟨[], rfl, rfl, by intro l hl; cases hl⟩, hg.seq, hg.minted, hg.rem⟩
+  obtain ⟨as, st', h1, h2, h3⟩ := run_spec p hv ts st ⟨p.start, p.minters, 0, 0⟩ p.start 0 hrel hwf (Int.le_refl 0) P_pos (Int.le_refl _)
+    (by
+      intro m rest hm
+      simp only [] at hm
+      have hG : Good m p.start := by rw [hm] at hwf; exact hwf.1
+      refine ⟨?_, ?_⟩
+      · show (0:Int) = Dec.truncInt (amountToMint m p.start p.start + 0)
+        rw [hG.zero]; rfl
+      · intro _ _; right; rfl)
+    hg.last (Int.le_refl _) (by intro t' _; simp) hinc hafter
+  exact ⟨as, st', h1, h2, by intro T hT; have := h3 T hT; omega⟩
+
+/-- two different ways of cutting time into blocks that end at the same instant mint the same total -/
+theorem cadence_irrelevant (p : Params) (hv : Valid p) (st : St) (hg : GenesisLike p st)
+    (ts ts' : List Int) (h1 : ts.Pairwise (· < ·)) (h2 : ts'.Pairwise (· < ·))
+    (a1 : ∀ t ∈ ts, p.start < t) (a2 : ∀ t ∈ ts', p.start < t) (T : Int)
+    (e1 : ts.getLast? = some T) (e2 : ts'.getLast? = some T) :
+    ∃ as as' s s', runBlocks p st ts = some (as, s) ∧ runBlocks p st ts' = some (as', s') ∧ sumInts as = sumInts as' := by
+  obtain ⟨as, s, r1, _, t1⟩ := path_independent p hv st hg ts h1 a1
+  obtain ⟨as', s', r2, _, t2⟩ := path_independent p hv st hg ts' h2 a2
+  exact ⟨as, as', s, s', r1, r2, by rw [t1 T e1, t2 T e2]⟩
+
+/-- a finished linear period has emitted exactly its configured amount (before the carried remainder) -/
+theorem linear_exact (m : M) (a start e : Int) (hc : m.cfg = .lin a) (he : m.endT = some e)
+    (h : CfgOk m start) : amountToMint m start e = Dec.ofInt a := by
+  obtain ⟨hend, hcfg⟩ := h
+  rw [hc] at hcfg
+  obtain ⟨_, e', he', hms⟩ := hcfg
+  rw [he] at he'; cases he'
+  have hse := hend e he
+  simp only [amountToMint, hc, he, linAmount, Dec.quoInt, Dec.mulInt]
+  rw [if_neg (by omega), if_neg (by omega)]
+  exact Int.mul_tdiv_cancel _ (by omega)
+
+/-- non-vacuity: a three-period configuration (no minting, linear, open-ended exponential) is `Valid` -/
+def exParams : Params :=
+  { denom := "uc4e", start := 0,
+    minters := [ { seq := 1, endT := some 10000000000, cfg := .noMint },
+                 { seq := 2, endT := some 50000000000, cfg := .lin 1000000 },
+                 { seq := 3, endT := none, cfg := .exp 40000000 31536000000000000 500000000000000000 } ] }
+
+theorem exParams_valid : Valid exParams := by
+  refine ⟨⟨rfl, rfl, trivial⟩, by decide, ?_⟩
+  unfold exParams ChainOk
+  refine ⟨⟨(by intro e he; cases he; decide), trivial⟩, ?_⟩
+  simp only []
+  unfold ChainOk
+  refine ⟨⟨(by intro e he; cases he; decide), ?_⟩, ?_⟩
+  · exact ⟨(by decide), 50000000000, rfl, (by decide)⟩
+  · simp only []
+    unfold ChainOk
+    exact ⟨⟨(by intro e he; cases he), (by decide), (by decide), (by decide)⟩, rfl⟩
 
 end C4E.Props.C02
